@@ -659,6 +659,12 @@ func c17IPP(c *Ctx) {
 						dops = append(dops, k)
 					}
 				}
+				// a helper of the same value type that is handed the decoder (v.readValue(dec)): its reads, in order
+				if call, ok := in.(*ssa.Call); ok {
+					if hops, _, isH := decoderHelperOps(call, kindOf); isH {
+						dops = append(dops, hops...)
+					}
+				}
 				if peek != nil && in == ssa.Instruction(peek) {
 					break
 				}
@@ -713,6 +719,11 @@ func c17IPP(c *Ctx) {
 			for _, in := range more.Instrs {
 				if call, ok := in.(*ssa.Call); ok && call.Call.IsInvoke() && kindOf(call.Call.Method.Name()) != "" {
 					readsMore = true
+				}
+				if call, ok := in.(*ssa.Call); ok {
+					if hops, _, isH := decoderHelperOps(call, kindOf); isH && len(hops) > 0 {
+						readsMore = true
+					}
 				}
 			}
 			switch {
@@ -770,6 +781,8 @@ func c17IPP(c *Ctx) {
 							}
 						} else if bi, ok := x.Call.Value.(*ssa.Builtin); ok && bi.Name() == "append" {
 							net = 0 // value committed
+						} else if _, commits, isH := decoderHelperOps(x, kindOf); isH && commits {
+							net = 0 // a helper that reads one further value and appends it
 						}
 					case *ssa.Return:
 						if net != 0 {
@@ -1040,4 +1053,50 @@ func normRel(dc Cond) string {
 		l = "(" + parts[0] + " + " + parts[1] + ")"
 	}
 	return l + " " + op.String() + " " + r
+}
+
+// decoderHelperOps: call is a static call of an in-repo, loop-free helper that is handed a decoder.Decoder; returns the
+// kinds of the decoder reads it performs (in source order, if/else alternatives collapsed) and whether it appends a value.
+func decoderHelperOps(call *ssa.Call, kindOf func(string) string) (ops []string, commits, ok bool) {
+	hf := call.Call.StaticCallee()
+	if hf == nil || !InRepo(hf) || hf.Blocks == nil || RelPkg(PkgOf(hf)) != ippRel {
+		return nil, false, false
+	}
+	hasDec := false
+	for _, a := range call.Call.Args {
+		if n := NamedOf(a.Type()); n != nil && n.Obj().Name() == "Decoder" {
+			hasDec = true
+		}
+	}
+	if !hasDec {
+		return nil, false, false
+	}
+	type op struct {
+		pos token.Pos
+		k   string
+	}
+	var hops []op
+	for _, b := range hf.Blocks {
+		if InLoop(b) {
+			return nil, false, false
+		}
+		for _, in := range b.Instrs {
+			c2, isC := in.(*ssa.Call)
+			if !isC {
+				continue
+			}
+			if c2.Call.IsInvoke() {
+				if k := kindOf(c2.Call.Method.Name()); k != "" {
+					hops = append(hops, op{c2.Pos(), k})
+				}
+			} else if bi, isB := c2.Call.Value.(*ssa.Builtin); isB && bi.Name() == "append" {
+				commits = true
+			}
+		}
+	}
+	sort.Slice(hops, func(i, j int) bool { return hops[i].pos < hops[j].pos })
+	for _, o := range hops {
+		ops = append(ops, o.k)
+	}
+	return collapseAlternatives(hf, ops), commits, true
 }
